@@ -371,6 +371,29 @@ func checkC05(c *CaseC05, fl *Fails) {
 }
 
 func sweepC05(tier string, emit func(*CaseC05)) {
+	// BOTH lists long (an indexed path that only starts when both sides are large), mixed vertical zooms in the first
+	// list, the only overlapping pair near the front of both lists (so the pairwise scan of the library stays short)
+	for _, n := range []int{2048, 2100, 4100} {
+		if tier == "quick" && n != 2100 {
+			continue
+		}
+		for _, spatial := range []bool{false, true} {
+			var a, b []ref.Box
+			for i := 0; i < n; i++ {
+				if spatial {
+					a = append(a, ref.Box{H: 20 + int64(i%2)*2, X: int64(1000 + 3*i), Y: 7, V: 20 + int64(i%2)*2, F: 3})
+					b = append(b, ref.Box{H: 25, X: int64(900000 + i), Y: 40000, V: 25, F: 24})
+				} else {
+					a = append(a, ref.Box{H: 20, X: int64(1000 + 3*i), Y: 7, V: 20 + int64(i%2)*2, F: 3})
+					b = append(b, ref.Box{H: 25, X: int64(900000 + i), Y: 40000, V: 25, F: 24})
+				}
+			}
+			// b[0] lies inside a[1] (and in nothing else)
+			a1 := a[1]
+			b[0] = ref.Box{H: 25, X: a1.X << uint(25-a1.H), Y: a1.Y << uint(25-a1.H), V: 25, F: a1.F << uint(25-a1.V)}
+			emit(&CaseC05{A: a, B: b, Spatial: spatial})
+		}
+	}
 	// long first lists of pairwise different, non-nested voxels; every entry must be found again (an index structure
 	// that loses the entry it was inserting when it grew)
 	each := []int{1100, 2100}
